@@ -1,11 +1,14 @@
 package e2e
 
 import (
+	"encoding/json"
 	"fmt"
 	"os"
 	"os/exec"
+	"pgregory.net/rapid"
 	"sort"
 	"strings"
+	"sync"
 
 	"testing"
 
@@ -191,4 +194,69 @@ func TestDebugMapperFileOfStoreStage(t *testing.T) {
 		}
 		fmt.Println(listFiles(dir))
 	}
+}
+
+// TestExploreConcurrent runs the requests of generated C01 cases concurrently on one cache directory (exploration
+// aid, not a registered check: the interleaving is not owned).
+func TestExploreConcurrent(t *testing.T) {
+	if os.Getenv("VERIF_EXPLORE_CONCURRENT") == "" {
+		t.Skip("exploration aid")
+	}
+	fails := 0
+	rapid.Check(t, func(rt *rapid.T) {
+		c := genC01(rt)
+		for len(c.Runs) < 3 {
+			c.Runs = append(c.Runs, genRun(rt, c.Prog, c.Seg, c.Head))
+		}
+		for i := range c.Runs {
+			c.Runs[i].TailLag = 0
+		}
+		dir := newDir()
+		defer os.RemoveAll(dir)
+		kinds := c.Prog.StoreKinds()
+		type res struct {
+			S runOut
+			L runOut
+			e error
+		}
+		out := make([]res, len(c.Runs))
+		var wg sync.WaitGroup
+		for i, spec := range c.Runs {
+			L, err := reference(c.Prog, spec, c.Head)
+			out[i].L, out[i].e = L, err
+		}
+		for i, spec := range c.Runs {
+			if out[i].e != nil {
+				continue
+			}
+			wg.Add(1)
+			go func(i int, spec runSpec) {
+				defer wg.Done()
+				out[i].S = execute(c.Prog, spec, c.Seg, c.Head, dir, false)
+			}(i, spec)
+		}
+		wg.Wait()
+		for i, spec := range c.Runs {
+			if out[i].e != nil {
+				continue
+			}
+			S, L := out[i].S, out[i].L
+			var f *ev.Failure
+			if S.res.Err != nil {
+				if os.Getenv("VERIF_EXPLORE_CONCURRENT") == "values" {
+					fmt.Printf("CONCURRENT-ERROR %s\n", firstLine(S.res.Err))
+					continue
+				}
+				f = ev.Failf("run-error", "%v", firstLine(S.res.Err))
+			} else if f = compareStreams(S.res, L.res, spec); f == nil {
+				f = compareStores(S.last, L.last, kinds)
+			}
+			if f != nil {
+				fails++
+				js, _ := json.Marshal(c)
+				fmt.Printf("CONCURRENT-FAIL run %d %+v: %s: %s\nCASE %s\n", i, spec, f.Sig, f.Msg, js)
+				rt.Fatalf("concurrent failure")
+			}
+		}
+	})
 }
